@@ -89,7 +89,7 @@ def _run_cargo_facts(repo, out_json):
             "IASTFACTS_OUT": out_json,
             "IASTFACTS_NONCE": nonce,
             "RUSTC_WRAPPER": DRIVER,
-            "RUSTFLAGS": "-Zmir-opt-level=0 -Awarnings",
+            "RUSTFLAGS": "-Zmir-opt-level=0 -Awarnings -Zalways-encode-mir",
             "CARGO_TARGET_DIR": TARGET,
         }
     )
